@@ -15,6 +15,8 @@ RULE = ('cases = index expressions for TT tensors of order 1..3 (thorough: 4) ov
         'quick = seeded sample stratified over mode-size patterns, thorough = bounded-exhaustive for order<=3 plus samples of order 4. Oracle: the same '
         'index expression applied to the harness-contracted dense array: same shape and same values (bit-equal for int-valued cores; fully-integer '
         'index -> 0-d). distinct = (structure, index expression); non-trivial = >=2 different index kinds or a singleton/length-1 position.')
+from ..hist import RULE_SUFFIX as _RS
+RULE = RULE + _RS
 ASSUMPTIONS = ['index expressions the library documents as unsupported (short tuples without Ellipsis, Ellipsis in the middle, mixed int/slice pairs on operators, '
                'negative steps) are outside this workload - they must raise (C18)']
 REQUIRED_REACH = ['_tt_base:TT.__getitem__', '_tt_base:TT.reduce_dims', '_aux_ops:apply_mask', '_tt_base:TT.apply_mask']
